@@ -196,6 +196,50 @@ def gen_mirror_case(rng, cid):
     return {"id": cid, "powers": powers, "prevote": prevote, "round": rnd, "entries": ents, "pmode": pmode, "style": style}
 
 
+def gen_history(rng, hid):
+    """Several vote messages, all signed by members of one set B whose distinct power is below the minority threshold."""
+    n = rng.choice([3, 4, 4, 5, 6, 7, 8, 10])
+    while True:
+        powers, pmode = gen_powers(rng, n)
+        if pmode not in ("overflow", "small-with-zeros") and len(powers) == n:
+            break
+    total = sum(powers)
+    mn = (total + 2) // 3
+    order = list(range(n))
+    for i in range(n - 1, 0, -1):
+        j = rng.below(i + 1)
+        order[i], order[j] = order[j], order[i]
+    members, acc = [], 0
+    for i in order:
+        if acc + powers[i] < mn:
+            acc += powers[i]
+            members.append(i)
+    if not members:
+        return None
+    targets = ["-"] + [rng.choice(HASH_POOL[:12]) for _ in range(3)]
+    targets = list(dict.fromkeys(targets))
+    msgs = []
+    for _ in range(2 + rng.below(5)):
+        masks = {}
+        for i in members:
+            if rng.chance(1, 4):
+                continue
+            for _ in range(1 + rng.below(3)):
+                t = rng.choice(targets)
+                masks[t] = masks.get(t, 0) | (1 << i)
+        if masks:
+            msgs.append({"prevote": rng.chance(1, 2), "round": rng.below(2), "entries": sorted(masks.items())})
+    if not msgs:
+        return None
+    return {"id": 100000 + 100 * hid, "powers": powers, "msgs": msgs, "members": members}
+
+
+def history_line(h):
+    return "%d|%s|%s" % (h["id"], ",".join(str(p) for p in h["powers"]),
+                         "/".join("%s,%d,%s" % ("pv" if m["prevote"] else "pc", m["round"], ";".join("%s:%d" % e for e in m["entries"]))
+                                  for m in h["msgs"]))
+
+
 def mirror_line(c):
     return "%d|%s|%s|%d|%s" % (c["id"], ",".join(str(p) for p in c["powers"]), "pv" if c["prevote"] else "pc", c["round"],
                                ";".join("%s:%d" % (h, m) for h, m in c["entries"]))
@@ -208,7 +252,8 @@ def parse_mirror_obs(line):
 
     def pe(s):
         return [] if s == "." else [(e.split(":")[0], int(e.split(":")[1])) for e in s.split(";")]
-    return {"id": int(f[0]), "res": int(f[1]), "h": int(f[2]), "r": int(f[3]), "avail": int(f[4]), "tpv": int(f[5]), "tpc": int(f[6]),
+    cid = sum(int(x) for x in f[0].split("."))
+    return {"id": cid, "res": int(f[1]), "h": int(f[2]), "r": int(f[3]), "avail": int(f[4]), "tpv": int(f[5]), "tpc": int(f[6]),
             "pvb": parse_map(f[7]), "pcb": parse_map(f[8]), "mpv": f[9], "mpc": f[10], "pvp": pe(f[11]), "pcp": pe(f[12])}
 
 
@@ -233,6 +278,13 @@ Print mcorr_bad. Print mmon_bad.
 
 
 def mirror_replay(c, o):
+    if "history" in c:
+        h = c["history"]
+        return {"mirror_histories": [history_line(h)], "failing_step": c["step"],
+                "input": {"powers": h["powers"], "messages": h["msgs"][:c["step"] + 1], "signers_so_far_mask": c["entries"][0][1]},
+                "observed": o, "distinct_signer_power": distinct_power(c["powers"], c["entries"]),
+                "minority_threshold": (sum(c["powers"]) + 2) // 3,
+                "how": "echo '%s' | bin/h_c06 mirror   (one output line per message: id.step|result|H|R|available|totPV|totPC|...)" % history_line(h)}
     return {"mirror_cases": [mirror_line(c)],
             "input": {"powers": c["powers"], "message": "prevotes" if c["prevote"] else "precommits", "height": 1, "round": c["round"],
                       "votes": c["entries"]},
@@ -490,9 +542,35 @@ def main(argv):
         n_m = 200 if c.tier == "quick" else 6000
         while len(mcases) < n_m:
             mcases.append(gen_mirror_case(c.rng, len(mcases)))
+    histories = []
+    if c.replay:
+        for i, line in enumerate(json.load(open(c.replay)).get("mirror_histories", [])):
+            f = line.split("|")
+            msgs = []
+            for ms in f[2].split("/"):
+                k, r, es = ms.split(",", 2)
+                msgs.append({"prevote": k == "pv", "round": int(r), "entries": [(e.split(":")[0], int(e.split(":")[1])) for e in es.split(";")]})
+            histories.append({"id": 100000 + 100 * i, "powers": [int(x) for x in f[1].split(",")], "msgs": msgs, "members": []})
+    else:
+        n_h = 60 if c.tier == "quick" else 1500
+        while len(histories) < n_h:
+            h = gen_history(c.rng, len(histories))
+            if h is not None:
+                h["id"] = 100000 + 100 * len(histories)
+                histories.append(h)
+    # each history step becomes a monitor-only case: the signers so far form one pseudo entry
+    hsteps = {}
+    for h in histories:
+        cum = 0
+        for k, m in enumerate(h["msgs"]):
+            for _, mask in m["entries"]:
+                cum |= mask
+            hsteps[h["id"] + k] = {"id": h["id"] + k, "powers": h["powers"], "prevote": m["prevote"], "round": m["round"],
+                                   "entries": [("-", cum)], "pmode": "history", "style": "history", "history": h, "step": k}
     mobs, mcorr_bad, mmon_bad, mevaluated = {}, [], [], 0
-    if mcases:
-        rc, out, err = c.run_bin(binary, args=["mirror"], stdin="\n".join(mirror_line(x) for x in mcases) + "\n")
+    if mcases or histories:
+        rc, out, err = c.run_bin(binary, args=["mirror"], stdin="\n".join([mirror_line(x) for x in mcases] + [history_line(h) for h in histories]) + "\n")
+        mcases = mcases + list(hsteps.values())
         for line in out.splitlines():
             o = parse_mirror_obs(line)
             if o is not None:
@@ -500,7 +578,9 @@ def main(argv):
         if len(mobs) != len(mcases):
             missing = [x for x in mcases if x["id"] not in mobs][:1]
             c.fail_obligation("mirror-harness-run", "mirror harness returned %d of %d results (rc=%s): %s %s" % (
-                len(mobs), len(mcases), rc, out[-300:], err[-600:]), {"mirror_cases": [mirror_line(x) for x in missing]})
+                len(mobs), len(mcases), rc, out[-300:], err[-600:]),
+                {"mirror_histories": [history_line(x["history"]) for x in missing]} if missing and "history" in missing[0]
+                else {"mirror_cases": [mirror_line(x) for x in missing]})
         mdone = [x for x in mcases if x["id"] in mobs]
         mbyid = {x["id"]: x for x in mdone}
         if models_ok and mdone:
@@ -515,7 +595,7 @@ def main(argv):
                     c.fail_obligation("mirror-cases-eval", cout[-1500:])
                     break
                 mevaluated += len(sh)
-                mcorr_bad += grab_list(cout, "mcorr_bad") or []
+                mcorr_bad += [i for i in (grab_list(cout, "mcorr_bad") or []) if i < 100000]
                 mb = grab_list(cout, "mmon_bad") or []
                 mmon_bad += list(zip(mb[0::2], mb[1::2]))
         seen = set()
@@ -525,6 +605,14 @@ def main(argv):
                 continue
             seen.add(key)
             x, o = mbyid[cid], mobs[cid]
+            if "history" in x:
+                c.report(key, "real Mirror, fresh at height 1 round 0, after messages %s from validators of powers %s (distinct signer power "
+                              "so far %d, minority threshold %d) -> voting view height %d round %d, summary available=%d totalPrevote=%d "
+                              "totalPrecommit=%d prevote proofs %s precommit proofs %s" % (
+                                  history_line(x["history"]).split("|")[2].split("/")[:x["step"] + 1], x["powers"],
+                                  distinct_power(x["powers"], x["entries"]), (sum(x["powers"]) + 2) // 3, o["h"], o["r"], o["avail"], o["tpv"],
+                                  o["tpc"], o["pvp"], o["pcp"]), mirror_replay(x, o))
+                continue
             c.report(key, "real Mirror, fresh at height 1 round 0, one %s message for round %d with votes %s from validators of powers %s "
                           "(distinct signer power %d, minority threshold %d) -> voting view height %d round %d, summary available=%d "
                           "totalPrevote=%d totalPrecommit=%d" % (
@@ -581,7 +669,11 @@ def main(argv):
                              "round_moved": sum(1 for o in mobs.values() if o["r"] != 0),
                              "sub_minority_messages": sum(1 for x in mcases if x["id"] in mobs and distinct_power(x["powers"], x["entries"]) < (sum(x["powers"]) + 2) // 3),
                              "equivocating_messages": sum(1 for x in mcases if equivocates(x["powers"], x["entries"])),
-                             "kinds": {k: sum(1 for x in mcases if ("pv" if x["prevote"] else "pc") + str(x["round"]) == k) for k in ("pv0", "pv1", "pc0", "pc1")}},
+                             "kinds": {k: sum(1 for x in mcases if ("pv" if x["prevote"] else "pc") + str(x["round"]) == k) for k in ("pv0", "pv1", "pc0", "pc1")},
+                             "histories": len(histories), "history_steps": len(hsteps),
+                             "note": "histories = 2..6 messages (prevotes/precommits, rounds 0/1, equivocating) all signed by one sub-minority set; "
+                                     "after every message the voting view is judged by c06_sum_mon (summary = recomputation from the view's proofs) "
+                                     "and c06_round_mon (round must stay 0); single-message scenarios are also compared with mirror_predict"},
         "generated_definitions": ["Gen/Step.v get_step <- tsi/step.go GetStepFromVoteSummary", "Gen/Math.v byz_majority/byz_minority <- tmconsensus/math.go"],
     })
     if st["equivocation"] * 4 < len(done) and not c.replay:
